@@ -534,6 +534,10 @@ class Bounds:
                 out.append(g[0])
             elif n == "partition_point" and g:
                 out.append(('len', container(g[0])))
+            elif n in ("len", "count") and len(g) == 1 and ("ExactSizeIterator" in str(a[1]) or "Iterator::count" in canon(a[1])):
+                c_ = iter_count(g[0])
+                if c_ is not None:
+                    out.append(c_)          # the length of an iterator chain is its item count (min over take / zip)
             elif n == "position" and g and False:
                 pass
         elif a[0] == 'narrow':
